@@ -554,6 +554,185 @@ theorem spec_erase (s : String) : ∀ (ops : List Op) (α1 α2 : Spec.State), Eq
 theorem eqExcept_init (s : String) (cat : Catalog) : EqExcept s (Spec.State.init cat) (Spec.State.init cat) :=
   ⟨rfl, rfl, rfl, rfl, fun _ _ => rfl, rfl⟩
 
+/-! ### erasing ONE transaction that does not commit: the states themselves coincide once the session is gone -/
+
+theorem erase_erase_self (s : String) : ∀ (l : List (String × β)), erase s (erase s l) = erase s l
+  | [] => rfl
+  | (k, v) :: l => by
+    by_cases h : k = s
+    · simp [erase, h, erase_erase_self s l]
+    · simp [erase, h, erase_erase_self s l]
+
+theorem erase_comm (a b : String) : ∀ (l : List (String × β)), erase a (erase b l) = erase b (erase a l)
+  | [] => rfl
+  | (k, v) :: l => by
+    have ih := erase_comm a b l
+    by_cases h1 : k = a
+    · subst h1
+      by_cases h2 : k = b
+      · subst h2; rfl
+      · simp [erase, h2, ih]
+    · by_cases h2 : k = b
+      · subst h2; simp [erase, h1, ih]
+      · simp [erase, h1, h2, ih]
+
+theorem erase_absent (s : String) : ∀ (l : List (String × β)), lookup s l = none → erase s l = l
+  | [], _ => rfl
+  | (k, v) :: l, h => by
+    by_cases h1 : k = s
+    · simp [lookup, h1] at h
+    · simp only [lookup, beq_iff_eq, h1, if_false] at h
+      simp [erase, h1, erase_absent s l h]
+
+theorem erase_cons_ne (s n : String) (v : β) (l : List (String × β)) (h : n ≠ s) :
+    erase s ((n, v) :: l) = (n, v) :: erase s l := by simp [erase, h]
+
+theorem erase_cons_self (s : String) (v : β) (l : List (String × β)) : erase s ((s, v) :: l) = erase s l := by
+  simp [erase]
+
+/-- `α` without session `s` -/
+def dropSess (s : String) (α : Spec.State) : Spec.State := { α with sessions := erase s α.sessions }
+
+theorem dropSess_absent (s : String) (α : Spec.State) (h : lookup s α.sessions = none) : dropSess s α = α := by
+  unfold dropSess; rw [erase_absent s _ h]
+
+theorem commitC_dropSess (s : String) (α : Spec.State) (a : Spec.ATxn) :
+    (dropSess s α).commitC a = (dropSess s (α.commitC a).1, (α.commitC a).2) := by
+  unfold Spec.State.commitC Spec.State.commitTxn dropSess
+  by_cases hc : Spec.conflict α.log a = true
+  · simp [hc]
+  · simp only [hc, Bool.false_eq_true, if_false, if_true]
+    split <;> rfl
+
+/-- an operation of another session (or an autocommit operation) does not care whether session `s` exists -/
+theorem step_dropSess_other (s : String) (α : Spec.State) (op : Op) (hof : op.ofSess s = false) :
+    Spec.step (dropSess s α) op = (dropSess s (Spec.step α op).1, (Spec.step α op).2) := by
+  unfold Spec.step
+  cases op with
+  | begin n =>
+    have hn : n ≠ s := by simpa [Op.ofSess] using hof
+    simp only [Spec.stepCore, dropSess, erase_cons_ne s n _ _ hn, erase_comm n s]
+    rfl
+  | commit n =>
+    have hn : n ≠ s := by simpa [Op.ofSess] using hof
+    simp only [Spec.stepCore]
+    have hl : lookup n (dropSess s α).sessions = lookup n α.sessions := lookup_erase_ne s n _ hn
+    rw [hl]
+    cases lookup n α.sessions with
+    | none => rfl
+    | some a =>
+      simp only [commitC_dropSess]
+      simp only [dropSess, erase_comm n s]
+  | rollback n =>
+    have hn : n ≠ s := by simpa [Op.ofSess] using hof
+    simp only [Spec.stepCore]
+    have hl : lookup n (dropSess s α).sessions = lookup n α.sessions := lookup_erase_ne s n _ hn
+    rw [hl]
+    cases lookup n α.sessions with
+    | none => rfl
+    | some a => simp only [dropSess, erase_comm n s]
+  | drop n =>
+    have hn : n ≠ s := by simpa [Op.ofSess] using hof
+    simp only [Spec.stepCore]
+    have hl : lookup n (dropSess s α).sessions = lookup n α.sessions := lookup_erase_ne s n _ hn
+    rw [hl]
+    cases lookup n α.sessions with
+    | none => rfl
+    | some a => simp only [dropSess, erase_comm n s]
+  | exec n st =>
+    have hn : n ≠ s := by simpa [Op.ofSess] using hof
+    simp only [Spec.stepCore]
+    have hl : lookup n (dropSess s α).sessions = lookup n α.sessions := lookup_erase_ne s n _ hn
+    rw [hl]
+    cases lookup n α.sessions with
+    | none => rfl
+    | some a => simp only [dropSess, erase_cons_ne s n _ _ hn, erase_comm n s]
+  | auto st =>
+    simp only [Spec.stepCore]
+    have hb : (dropSess s α).beginTxn = α.beginTxn := rfl
+    have hcat : (dropSess s α).cat = α.cat := rfl
+    have hclk : (dropSess s α).clock = α.clock := rfl
+    rw [hb, hcat, hclk]
+    split
+    · rfl
+    · simp only [commitC_dropSess]; rfl
+  | batch sts =>
+    simp only [Spec.stepCore]
+    have hb : (dropSess s α).beginTxn = α.beginTxn := rfl
+    have hcat : (dropSess s α).cat = α.cat := rfl
+    have hclk : (dropSess s α).clock = α.clock := rfl
+    rw [hb, hcat, hclk]
+    split
+    · rfl
+    · simp only [commitC_dropSess]; rfl
+  | tick => rfl
+  | nop => rfl
+
+/-- an operation of session `s` other than a commit changes nothing but session `s` -/
+theorem step_dropSess_own (s : String) (α : Spec.State) (op : Op) (hof : op.ofSess s = true) (hnc : op ≠ .commit s) :
+    (Spec.step (dropSess s α) .nop).1 = dropSess s (Spec.step α op).1 := by
+  unfold Spec.step
+  cases op with
+  | begin s' =>
+    have e : s' = s := by simpa [Op.ofSess] using hof
+    subst e
+    simp only [Spec.stepCore, dropSess, erase_cons_self, erase_erase_self]
+  | commit s' =>
+    have e : s' = s := by simpa [Op.ofSess] using hof
+    subst e; exact (hnc rfl).elim
+  | rollback s' =>
+    have e : s' = s := by simpa [Op.ofSess] using hof
+    subst e
+    simp only [Spec.stepCore]
+    cases lookup s' α.sessions with
+    | none => rfl
+    | some a => simp only [dropSess, erase_erase_self]
+  | drop s' =>
+    have e : s' = s := by simpa [Op.ofSess] using hof
+    subst e
+    simp only [Spec.stepCore]
+    cases lookup s' α.sessions with
+    | none => rfl
+    | some a => simp only [dropSess, erase_erase_self]
+  | exec s' st =>
+    have e : s' = s := by simpa [Op.ofSess] using hof
+    subst e
+    simp only [Spec.stepCore]
+    cases lookup s' α.sessions with
+    | none => rfl
+    | some a => simp only [dropSess, erase_cons_self, erase_erase_self]
+  | auto st => simp [Op.ofSess] at hof
+  | batch sts => simp [Op.ofSess] at hof
+  | tick => simp [Op.ofSess] at hof
+  | nop => simp [Op.ofSess] at hof
+
+/-- the erased history run without session `s` ends in the state of the full history without session `s`, and answers
+    the same outside session `s` -/
+theorem spec_erase_from (s : String) : ∀ (ops : List Op) (α : Spec.State), (∀ op ∈ ops, op ≠ .commit s) →
+    Spec.final (dropSess s α) (eraseSess s ops) = dropSess s (Spec.final α ops) ∧
+    Spec.outs (dropSess s α) (eraseSess s ops) = maskOuts s ops (Spec.outs α ops)
+  | [], _, _ => ⟨rfl, rfl⟩
+  | op :: ops, α, hnc => by
+    have hnc' : ∀ o ∈ ops, o ≠ .commit s := fun o ho => hnc o (List.mem_cons_of_mem _ ho)
+    simp only [eraseSess, List.map_cons, Spec.outs, Spec.final, maskOuts]
+    cases hof : op.ofSess s with
+    | true =>
+      simp only [if_true]
+      have h1 := step_dropSess_own s α op hof (hnc op (List.mem_cons_self ..))
+      obtain ⟨ih1, ih2⟩ := spec_erase_from s ops (Spec.step α op).1 hnc'
+      simp only [eraseSess] at ih1 ih2
+      rw [h1, ih1, ih2]
+      exact ⟨rfl, rfl⟩
+    | false =>
+      simp only [Bool.false_eq_true, if_false]
+      have h1 := step_dropSess_other s α op hof
+      obtain ⟨ih1, ih2⟩ := spec_erase_from s ops (Spec.step α op).1 hnc'
+      simp only [eraseSess] at ih1 ih2
+      rw [h1]
+      simp only
+      rw [ih1, ih2]
+      exact ⟨rfl, rfl⟩
+
 /-! ### stamps of a transaction that a snapshot does not see are dead weight -/
 
 /-- the store with every version created by `tid` and every delete mark of `tid` removed -/
